@@ -79,8 +79,8 @@ chk(Check('C11', 'exploration', ['serial', 'single', 'deep', 'parallel', 'forwar
           {'c11_raises': {'quick': 700, 'thorough': 14000}, 'c11_returned_exceptions': {'quick': 150, 'thorough': 3000}},
           'same programs with raising handlers at every position (sync/async, before/after suspension, parent/child/awaited child/forwarded bus), exception objects returned; non-trivial when >=1 raise or returned exception was judged (captured as that handler error result with the same object, nothing escapes process_event/await, event completes)',
           'offline error-capture checker (identity of exception objects) over handler exit records and final results', [A_VT, A_OBS, A_GEN]))
-chk(Check('C13', 'exploration', ['history'],
-          {'c13_bound_checks': {'quick': 30000, 'thorough': 600000}, 'c13_evictions': {'quick': 2000, 'thorough': 40000}},
+chk(Check('C13', 'exploration', ['history', 'capacity'],
+          {'c13_bound_checks': {'quick': 20000, 'thorough': 400000}, 'c13_evictions': {'quick': 1500, 'thorough': 30000}, 'c03_awaits': {'quick': 1500, 'thorough': 30000}},
           'programs on buses with max_history_size in {1,2,3,5,10}; len(event_history) observed after every dispatch, every process_event and at every handler entry/exit; every cleanup call judged with its pre-state (class priority completed<started<pending, oldest first, no over-eviction); non-trivial when >=1 eviction was judged',
           'invariant at hooks (pre/post snapshot around cleanup_event_history, length at dispatch/process_event return)', [A_VT, A_OBS, A_GEN]))
 chk(Check('C15', 'exploration', ['serial', 'single', 'deep', 'parallel', 'forward', 'history'],
